@@ -47,7 +47,8 @@ RULE = ('Exhaustive: every EFloat format (all es, nbits <= 8 quick / 11 thorough
         'One evaluation = one (format, level, item): item = a bit pattern (decode vs reference, encode(decode(b)) = b up '
         'to NaN payload), a member value in every Float spelling (representable, encode lands on a pattern of that value, '
         'normalize keeps the denotation and is canonical/unique, to_ordinal = reference rank, from_ordinal inverts it, '
-        'next_up/next_down = reference neighbours, behaviour at the ends / infinities / NaN), a non-member (midpoint, '
+        'next_up/next_down/next_towards_zero/next_away_zero/next_towards = reference neighbours, behaviour at the ends / '
+        'infinities / NaN), a non-member (midpoint, '
         'beyond range, below the smallest value, absent zero/inf/NaN: not representable), a min/max query, or a '
         'from_ordinal sweep over the whole ordinal range and just outside it. Plus sampled binary16/32/64 patterns '
         'against struct/numpy. Non-trivial = the format is degenerate (one-digit significand, es <= 1, top binade partly '
@@ -67,6 +68,9 @@ ASSUMPTIONS = [
     'infval/allow_inf=True is only checked for formats that have infinities (sentinel meaning otherwise is undocumented); '
     'formats with a zero must map it to ordinal 0 (documented: minval maps to +/-1), formats without zero (ExpFormat) only '
     'need a contiguous increasing range.',
+    'Constructor acceptance has an oracle only where the layout decides it: an extended-float parameterisation must be '
+    'accepted iff 0 <= es < nbits (es >= 1 for the IEEE kind) and the reference decoding has +0, both infinities when enabled '
+    'and a NaN unless the kind is NONE; signed 1-bit two\'s complement and 1-bit sign-magnitude may go either way.',
     'Only ValueError is accepted where the docs say "raises ValueError" (next_up/next_down on NaN, at +/-inf, on an infinity '
     'without allow_inf; from_ordinal outside the range; stepping past the largest value without allow_inf).',
 ]
@@ -292,7 +296,8 @@ class Ref:
 
 
 # ---------------------------------------------------------------------------
-# builders: spec -> (format object, context object, Ref).  Constructor rejections propagate as ValueError.
+# builders: o_*(args) -> (format object, context object) -- only the constructors under test, exceptions propagate;
+#           r_*(args) -> Ref, the reference value set from the same public parameters
 
 def _efloat_info(es, nbits, inf, nk, eoffset, pat):
     p = nbits - es
@@ -320,40 +325,50 @@ def _efloat_info(es, nbits, inf, nk, eoffset, pat):
     return info
 
 
-def b_efloat(es, nbits, inf, nk, eoffset):
-    fmt = EFloatFormat(es, nbits, inf, NK[nk], eoffset)
-    ctx = fp.EFloatContext(es, nbits, inf, NK[nk], eoffset)
+def o_efloat(es, nbits, inf, nk, eoffset):
+    return EFloatFormat(es, nbits, inf, NK[nk], eoffset), fp.EFloatContext(es, nbits, inf, NK[nk], eoffset)
+
+
+def r_efloat(es, nbits, inf, nk, eoffset):
     pat = refdec.efloat_all(es, nbits, inf, nk, eoffset)
-    return fmt, ctx, Ref('efloat', nbits, pat, info=_efloat_info(es, nbits, inf, nk, eoffset, pat))
+    return Ref('efloat', nbits, pat, info=_efloat_info(es, nbits, inf, nk, eoffset, pat))
 
 
-def b_ieee(es, nbits):
-    fmt = IEEEFormat(es, nbits)
-    ctx = fp.IEEEContext(es, nbits)
+def o_ieee(es, nbits):
+    return IEEEFormat(es, nbits), fp.IEEEContext(es, nbits)
+
+
+def r_ieee(es, nbits):
     pat = refdec.efloat_all(es, nbits, True, refdec.IEEE_754, 0)
-    return fmt, ctx, Ref('ieee', nbits, pat, info=_efloat_info(es, nbits, True, 0, 0, pat))
+    return Ref('ieee', nbits, pat, info=_efloat_info(es, nbits, True, 0, 0, pat))
 
 
-def b_fixed(signed, scale, nbits):
-    fmt = FixedFormat(signed, scale, nbits)
-    ctx = fp.FixedContext(signed, scale, nbits)
+def o_fixed(signed, scale, nbits):
+    return FixedFormat(signed, scale, nbits), fp.FixedContext(signed, scale, nbits)
+
+
+def r_fixed(signed, scale, nbits):
     pat = [refdec.fixed_decode(signed, scale, nbits, b) for b in range(1 << nbits)]
     tags = {'unsigned'} if not signed else set()
-    return fmt, ctx, Ref('fixed', nbits, pat, info={'tags': tags})
+    return Ref('fixed', nbits, pat, info={'tags': tags})
 
 
-def b_smfixed(scale, nbits):
-    fmt = SMFixedFormat(scale, nbits)
-    ctx = fp.SMFixedContext(scale, nbits)
+def o_smfixed(scale, nbits):
+    return SMFixedFormat(scale, nbits), fp.SMFixedContext(scale, nbits)
+
+
+def r_smfixed(scale, nbits):
     pat = [refdec.smfixed_decode(scale, nbits, b) for b in range(1 << nbits)]
-    return fmt, ctx, Ref('smfixed', nbits, pat, info={'tags': set()})
+    return Ref('smfixed', nbits, pat, info={'tags': set()})
 
 
-def b_exp(nbits, eoffset):
-    fmt = ExpFormat(nbits, eoffset)
-    ctx = fp.ExpContext(nbits, eoffset)
+def o_exp(nbits, eoffset):
+    return ExpFormat(nbits, eoffset), fp.ExpContext(nbits, eoffset)
+
+
+def r_exp(nbits, eoffset):
     pat = [refdec.exp_decode(nbits, eoffset, b) for b in range(1 << nbits)]
-    return fmt, ctx, Ref('exp', nbits, pat, info={'tags': {'p=1'}})
+    return Ref('exp', nbits, pat, info={'tags': {'p=1'}})
 
 
 def _float_succ(v: Fraction, p: int, expmin: int) -> Fraction:
@@ -380,9 +395,11 @@ def _sym(pos):
     return [-v for v in reversed(pos)] + [Fraction(0)] + list(pos)
 
 
-def b_mps(p, emin, nan, inf):
-    fmt = MPSFloatFormat(p, emin, nan, inf)
-    ctx = fp.MPSFloatContext(p, emin, enable_nan=nan, enable_inf=inf)
+def o_mps(p, emin, nan, inf):
+    return MPSFloatFormat(p, emin, nan, inf), fp.MPSFloatContext(p, emin, enable_nan=nan, enable_inf=inf)
+
+
+def r_mps(p, emin, nan, inf):
     expmin = emin - p + 1
     pos = []
     v = pow2(expmin)
@@ -403,16 +420,22 @@ def b_mps(p, emin, nan, inf):
         segs.append((-_float_rank(far[-1], p, emin), neg, False, False))
     has = {PZERO, NZERO} | ({NAN} if nan else set()) | ({PINF, NINF} if inf else set())
     tags = {'p=1'} if p == 1 else set()
-    return fmt, ctx, Ref('mps', segs=segs, has=has, member=lambda q: on_grid(q, p, expmin - 1),
+    return Ref('mps', segs=segs, has=has, member=lambda q: on_grid(q, p, expmin - 1),
                          info={'tags': tags, 'p': p, 'expmin': expmin})
 
 
-def b_mpb(p, emin, maxval, negmax, nan, inf):
+def o_mpb(p, emin, maxval, negmax, nan, inf):
     maxval = Fraction(maxval)
     negmax = None if negmax is None else Fraction(negmax)
     fmt = MPBFloatFormat(p, emin, rf(maxval), None if negmax is None else rf(negmax), nan, inf)
     ctx = fp.MPBFloatContext(p, emin, rf(maxval), neg_maxval=None if negmax is None else rf(negmax),
                              enable_nan=nan, enable_inf=inf)
+    return fmt, ctx
+
+
+def r_mpb(p, emin, maxval, negmax, nan, inf):
+    maxval = Fraction(maxval)
+    negmax = None if negmax is None else Fraction(negmax)
     expmin = emin - p + 1
     lo = -maxval if negmax is None else negmax
     pos, neg = [], []
@@ -430,35 +453,44 @@ def b_mpb(p, emin, maxval, negmax, nan, inf):
     e = floor_log2(maxval)
     if maxval != pow2(e + 1) - pow2(max(e - p + 1, expmin)):
         tags.add('top-binade-partial')
-    return fmt, ctx, Ref('mpb', segs=segs, has=has,
+    return Ref('mpb', segs=segs, has=has,
                          member=lambda q: on_grid(q, p, expmin - 1) and lo <= q <= maxval,
                          info={'tags': tags, 'p': p, 'expmin': expmin})
 
 
-def b_mpfixed(nmin, nan, inf, negzero):
-    fmt = MPFixedFormat(nmin, nan, inf, negzero)
-    ctx = fp.MPFixedContext(nmin, enable_nan=nan, enable_inf=inf, enable_neg_zero=negzero)
+def o_mpfixed(nmin, nan, inf, negzero):
+    return (MPFixedFormat(nmin, nan, inf, negzero),
+            fp.MPFixedContext(nmin, enable_nan=nan, enable_inf=inf, enable_neg_zero=negzero))
+
+
+def r_mpfixed(nmin, nan, inf, negzero):
     ulp = pow2(nmin + 1)
     segs = [(-24, [k * ulp for k in range(-24, 25)], False, False)]
     for k0 in ((1 << 70) - 3, -(1 << 70) - 2, 12345):
         segs.append((k0, [k * ulp for k in range(k0, k0 + 6)], False, False))
     has = {PZERO} | ({NZERO} if negzero else set()) | ({NAN} if nan else set()) | ({PINF, NINF} if inf else set())
-    return fmt, ctx, Ref('mpfixed', segs=segs, has=has, member=lambda q: (q / ulp).denominator == 1,
+    return Ref('mpfixed', segs=segs, has=has, member=lambda q: (q / ulp).denominator == 1,
                          info={'tags': set(), 'expmin': nmin + 1})
 
 
-def b_mpbfixed(nmin, kmax, kmin, nan, inf, negzero):
+def o_mpbfixed(nmin, kmax, kmin, nan, inf, negzero):
+    ulp = pow2(nmin + 1)
+    maxval = kmax * ulp
+    neg_rf = RealFloat(c=0, exp=0) if kmin == 0 else rf(kmin * ulp)
+    fmt = MPBFixedFormat(nmin, rf(maxval), neg_rf, nan, inf, negzero)
+    ctx = fp.MPBFixedContext(nmin, rf(maxval), neg_maxval=neg_rf, enable_nan=nan, enable_inf=inf, enable_neg_zero=negzero)
+    return fmt, ctx
+
+
+def r_mpbfixed(nmin, kmax, kmin, nan, inf, negzero):
     ulp = pow2(nmin + 1)
     maxval = kmax * ulp
     negmax = kmin * ulp
-    neg_rf = RealFloat(c=0, exp=0) if kmin == 0 else rf(negmax)
-    fmt = MPBFixedFormat(nmin, rf(maxval), neg_rf, nan, inf, negzero)
-    ctx = fp.MPBFixedContext(nmin, rf(maxval), neg_maxval=neg_rf, enable_nan=nan, enable_inf=inf, enable_neg_zero=negzero)
     vals = [k * ulp for k in range(kmin, kmax + 1)]
     segs = [(kmin, vals, True, True)]
     has = {PZERO} | ({NZERO} if negzero else set()) | ({NAN} if nan else set()) | ({PINF, NINF} if inf else set())
     tags = {'unsigned'} if kmin == 0 else set()
-    return fmt, ctx, Ref('mpbfixed', segs=segs, has=has,
+    return Ref('mpbfixed', segs=segs, has=has,
                          member=lambda q: (q / ulp).denominator == 1 and negmax <= q <= maxval,
                          info={'tags': tags, 'expmin': nmin + 1})
 
@@ -466,22 +498,24 @@ def b_mpbfixed(nmin, kmax, kmin, nan, inf, negzero):
 GROUP = {'efloat': 'float', 'ieee': 'float', 'mps': 'float', 'mpb': 'float', 'exp': 'exp',
          'fixed': 'fixed-point', 'smfixed': 'fixed-point', 'mpfixed': 'fixed-point', 'mpbfixed': 'fixed-point'}
 
-BUILD = {'efloat': b_efloat, 'ieee': b_ieee, 'fixed': b_fixed, 'smfixed': b_smfixed, 'exp': b_exp,
-         'mps': b_mps, 'mpb': b_mpb, 'mpfixed': b_mpfixed, 'mpbfixed': b_mpbfixed}
+OBJ = {'efloat': o_efloat, 'ieee': o_ieee, 'fixed': o_fixed, 'smfixed': o_smfixed, 'exp': o_exp,
+       'mps': o_mps, 'mpb': o_mpb, 'mpfixed': o_mpfixed, 'mpbfixed': o_mpbfixed}
+REF = {'efloat': r_efloat, 'ieee': r_ieee, 'fixed': r_fixed, 'smfixed': r_smfixed, 'exp': r_exp,
+       'mps': r_mps, 'mpb': r_mpb, 'mpfixed': r_mpfixed, 'mpbfixed': r_mpbfixed}
 
 
 # ---------------------------------------------------------------------------
 # the format under test
 
 class FUT:
-    def __init__(self, spec, level, res: Result, fmt_failed=None):
+    def __init__(self, spec, level, res: Result, objs, fmt_failed=None):
         self.fmt_failed = fmt_failed     # failures of the same items at Format level (None: not tracked)
         self.spec = [spec[0], list(spec[1])]
         self.fam = spec[0]
         self.level = level
         self.res = res
-        fmt, ctx, ref = BUILD[self.fam](*spec[1])
-        self.ref = ref
+        fmt, ctx = objs
+        self.ref = ref = REF[self.fam](*spec[1])
         self.o = fmt if level == 'fmt' else ctx
         self.nkname = NKNAME[ref.info['nk']] if 'nk' in ref.info else ''
         self._base = 0 if ref.has_zero else None
@@ -1268,23 +1302,25 @@ def layout_valid(spec):
 def run_format(res: Result, spec):
     fmt_failed = set()
     want = layout_valid(spec)
+    case = {'spec': [spec[0], list(spec[1])], 'level': 'fmt', 'item': ['construct']}
+    try:
+        objs = OBJ[spec[0]](*spec[1])
+    except Exception as e:   # noqa: BLE001 - constructor of the code under test
+        exc = type(e).__name__
+        if want is True or exc != 'ValueError':
+            res.case()
+            res.fail(f'{spec[0]}/constructor/raised {exc} for ' + ('a layout that has a code for everything it promises'
+                     if want else 'an invalid layout' if want is False else 'a layout'), case,
+                     expected='accepted' if want else 'ValueError', got=f'raised {exc}')
+        else:
+            res.skip('constructor rejected')
+        return
+    if want is False:
+        res.case()
+        res.fail(f'{spec[0]}/constructor/accepted a layout that lacks a code it promises', case, expected='ValueError', got='accepted')
+        return
     for level in ('fmt', 'ctx'):
-        try:
-            fut = FUT(spec, level, res, fmt_failed if level == 'ctx' else None)
-        except Exception as e:   # noqa: BLE001 - constructor of the code under test
-            exc = type(e).__name__
-            if want is True or exc != 'ValueError':
-                res.case()
-                res.fail(f'{spec[0]}/constructor/raised {exc} for ' + ('a layout that has a code for everything it promises'
-                         if want else 'an invalid layout' if want is False else 'a layout'),
-                         {'spec': [spec[0], list(spec[1])], 'level': level, 'item': ['construct']}, expected='accepted' if want else 'ValueError',
-                         got=f'raised {exc}')
-            else:
-                res.skip('constructor rejected')
-            return
-        if want is False and level == 'fmt':
-            res.fail(f'{spec[0]}/constructor/accepted a layout that lacks a code it promises',
-                     {'spec': [spec[0], list(spec[1])], 'level': level, 'item': ['construct']}, expected='ValueError', got='accepted')
+        fut = FUT(spec, level, res, objs, fmt_failed if level == 'ctx' else None)
         res.count('formats')
         for item in fut.items():
             fut.run_item(item)
@@ -1367,18 +1403,16 @@ def replay(case):
         run_native_item(res, spec[1][0], level, item[1])
     else:
         sp = (spec[0], tuple(spec[1]))
+        want = layout_valid(sp)
         try:
-            fut = FUT(sp, level, res)
+            objs = OBJ[sp[0]](*sp[1])
         except Exception as e:   # noqa: BLE001
-            want = layout_valid(sp)
-            if item[0] == 'construct' and want is False and type(e).__name__ == 'ValueError':
-                return []
-            res.fail(f'{spec[0]}/constructor/raised {type(e).__name__} for a format of a saved case', case, 'accepted',
-                     f'raised {type(e).__name__}')
+            if not (item[0] == 'construct' and want is False and type(e).__name__ == 'ValueError'):
+                res.fail(f'{spec[0]}/constructor/raised {type(e).__name__} for a format of a saved case', case, 'accepted',
+                         f'raised {type(e).__name__}')
         else:
-            if item[0] == 'construct':
-                if layout_valid(sp) is False:
-                    res.fail(f'{spec[0]}/constructor/accepted a layout that lacks a code it promises', case, 'ValueError', 'accepted')
-            else:
-                fut.run_item(tuple(item))
+            if want is False:
+                res.fail(f'{spec[0]}/constructor/accepted a layout that lacks a code it promises', case, 'ValueError', 'accepted')
+            elif item[0] != 'construct':
+                FUT(sp, level, res, objs).run_item(tuple(item))
     return [f for fl in res.failures.values() for f in fl]
